@@ -131,7 +131,9 @@ def run(out, tier, seed, gate):
             out.violation("corr-" + str(t["id"]), {"kind": "correspondence", "no_longer_checks": "corr_C17_route (Model/Routing.v rstep vs Topic::append_messages)",
                                                    "mode": "route", "trace": t, "impl": ob, "model": {"outs": m_outs, "parts": m_parts}},
                           no_failing_input=True)
+    srv_cov = run_server(out, tier, seed)
     return {
+        **srv_cov,
         "traces_validated_against_impl": len(index), "evaluations": len(index), "distinct_nontrivial": len(nontrivial),
         "rule": "seeded random histories of send(balanced|key|partition id)/add/delete partitions on a real Topic; non-trivial = reaches at least one shape flag; distinct by hash of the op list",
         "op_histogram": hist, "shape_flags": flagc, "model_impl_disagreements": disagreements,
@@ -139,8 +141,161 @@ def run(out, tier, seed, gate):
     }
 
 
+# ----------------------------------------------------------------------------- the same specification on the whole server
+SRV_ERR = {"topic_full": 6, "no_partitions": 2, "partition_not_found": 3, "resource_not_found": 3}
+
+
+def gen_srv_trace(rng, tid):
+    """sends of all three kinds through the real server interleaved with partition additions / removals, restarts, purges and - on a
+    size-limited topic - refusals because the topic is full; the topic is looked at after every step"""
+    parts = rng.choice([1, 2, 3, 3, 4, 5])
+    limited = rng.random() < 0.5
+    cfg = {"req": rng.choice([1, 3]), "seg_size": 1000, "cache": False, "delete_oldest": False}
+    top = {"op": "create_topic", "stream": 1, "name": "rt", "parts": parts, "id": 1}
+    if limited:
+        top["max_size"] = rng.choice([2000, 3000])
+    ops = [{"op": "create_stream", "name": "rs", "id": 1}, top]
+    look = {"op": "get_topic", "stream": 1, "topic": 1}
+    steps = []      # (rop-description, index of the op, index of the look after it)
+    keys = [[rng.randrange(256) for _ in range(rng.choice([1, 2, 8, 255]))] for _ in range(3)]
+    mid = [0]
+    cur = parts
+
+    def ids(n):
+        r = list(range(mid[0] + 1, mid[0] + n + 1))
+        mid[0] += n
+        return r
+
+    ops.append(dict(look))
+    for _ in range(rng.randrange(10, 34)):
+        x = rng.random()
+        if x < 0.5:
+            d = {"kind": "balanced"}
+        elif x < 0.62:
+            d = {"kind": "key", "key": rng.randrange(len(keys))}
+        elif x < 0.74:
+            d = {"kind": "pid", "id": rng.choice([1, cur, cur, cur + 1, rng.randrange(1, 8)])}
+        elif x < 0.80:
+            d = {"kind": "add", "n": rng.choice([1, 1, 2])}
+        elif x < 0.86:
+            d = {"kind": "del", "n": rng.randrange(1, cur + 1)} if cur > 0 else {"kind": "add", "n": 1}
+        elif x < 0.93:
+            d = {"kind": "restart"}
+        else:
+            d = {"kind": "purge"}
+        if d["kind"] in ("balanced", "key", "pid"):
+            d["ids"] = ids(rng.choice([1, 1, 2, 3]))
+            part = {"balanced": {"kind": "balanced"}, "key": {"kind": "key", "key": keys[d.get("key", 0)]}, "pid": {"kind": "pid", "id": d.get("id", 0)}}[d["kind"]]
+            ops.append({"op": "send", "stream": 1, "topic": 1, "part": part, "msgs": [{"id": i, "len": rng.choice([60, 150])} for i in d["ids"]]})
+        elif d["kind"] == "add":
+            ops.append({"op": "create_partitions", "stream": 1, "topic": 1, "n": d["n"]})
+            cur += d["n"]
+        elif d["kind"] == "del":
+            ops.append({"op": "delete_partitions", "stream": 1, "topic": 1, "n": d["n"]})
+            cur -= d["n"]
+        elif d["kind"] == "restart":
+            ops.append({"op": "restart"})
+        else:
+            ops.append({"op": "purge_topic", "stream": 1, "topic": 1})
+        ops.append(dict(look))
+        steps.append((d, len(ops) - 2, len(ops) - 1))
+    if limited and cur > 0:
+        # fill the topic until sends are refused, free it again, go on: the refused sends must not have moved the rotation
+        for _ in range(rng.randrange(18, 24)):
+            d = {"kind": "balanced", "ids": ids(1)}
+            ops.append({"op": "send", "stream": 1, "topic": 1, "part": {"kind": "balanced"}, "msgs": [{"id": d["ids"][0], "len": 150}]})
+            ops.append(dict(look))
+            steps.append((d, len(ops) - 2, len(ops) - 1))
+        ops.append({"op": "purge_topic", "stream": 1, "topic": 1})
+        ops.append(dict(look))
+        steps.append(({"kind": "purge"}, len(ops) - 2, len(ops) - 1))
+        for _ in range(cur + 1):
+            d = {"kind": "balanced", "ids": ids(1)}
+            ops.append({"op": "send", "stream": 1, "topic": 1, "part": {"kind": "balanced"}, "msgs": [{"id": d["ids"][0], "len": 60}]})
+            ops.append(dict(look))
+            steps.append((d, len(ops) - 2, len(ops) - 1))
+    polls_at = len(ops)
+    for p in range(1, cur + 1):
+        ops.append({"op": "poll", "stream": 1, "topic": 1, "partition": p, "kind": "offset", "value": 0, "count": 100000})
+    return {"id": tid, "cfg": cfg, "ops": ops, "marks": {"steps": steps, "parts": parts, "polls_at": polls_at, "final_parts": cur}}
+
+
+def run_server(out, tier, seed):
+    rng = util.Rng(seed * 17017 + 17)
+    n = 24 if tier == "quick" else 300
+    traces = [gen_srv_trace(rng, "C17-s%d" % i) for i in range(n)]
+    impl = harness.run_traces("srv", [{k: v for k, v in t.items() if k != "marks"} for t in traces], shards=min(8, n))
+    terms, index = [], []
+    hist = {}
+    for t in traces:
+        ob = impl[t["id"]]
+        slim = {k: v for k, v in t.items() if k != "marks"}
+        if "crash" in ob or "init_err" in ob:
+            out.violation("srv-crash-%s" % t["id"], {"kind": "impl-crash", "mode": "srv", "trace": slim, "detail": str(ob)[-1200:]})
+            continue
+        outs = ob["outs"]
+        mk = t["marks"]
+
+        def counts(o):
+            return {p["id"]: (p["msgs"], p["cur"]) for p in o.get("parts", [])} if o.get("r") == "ok" else None
+
+        prev = counts(outs[2])
+        pairs, broken = [], None
+        for d, i, j in mk["steps"]:
+            if j >= len(outs):
+                break
+            o, after = outs[i], counts(outs[j])
+            if after is None or prev is None:
+                broken = (j, "the topic cannot be looked at", outs[j])
+                break
+            k = d["kind"]
+            hist[k] = hist.get(k, 0) + 1
+            if k in ("balanced", "key", "pid"):
+                changed = sorted(p for p in after if p in prev and after[p] != prev[p])
+                rop = C("Send", {"balanced": C("Balanced"), "pid": C("PartId", d.get("id", 0)), "key": C("Key", d.get("key", 0))}[k], list(d["ids"]))
+                if o.get("r") == "ok":
+                    code, arg = (0, changed[0]) if len(changed) == 1 else (9, len(changed))
+                else:
+                    code, arg = SRV_ERR.get(o.get("name"), 99), 0
+                    hist["refused:" + str(o.get("name"))] = hist.get("refused:" + str(o.get("name")), 0) + 1
+                pairs.append((rop, (code, arg, changed)))
+            elif k == "add":
+                pairs.append((C("AddParts", d["n"]), (5 if o.get("r") == "ok" else 4, 0, [])))
+            elif k == "del":
+                pairs.append((C("DelParts", d["n"]), (5 if o.get("r") == "ok" else 4, 0, [])))
+            elif k == "restart":
+                if o.get("r") != "ok":
+                    broken = (i, "the restart fails", o)
+                    break
+                pairs.append((C("AddParts", 0), (7, 0, [])))
+            else:
+                pairs.append((C("DelParts", 0), (8 if o.get("r") == "ok" else 99, 0, [])))
+            prev = after
+        if broken:
+            out.violation("srv-%s-%d" % (t["id"], broken[0]), {"kind": "spec-monitor", "mode": "srv", "trace": {"id": t["id"], "cfg": t["cfg"], "ops": t["ops"][:broken[0] + 1]},
+                                                              "what": broken[1], "response": broken[2]})
+            continue
+        final = []
+        for o in outs[mk["polls_at"]:]:
+            final.append([m["id"] for m in o.get("msgs", [])] if o.get("r") == "ok" else [999999999999])   # a partition that cannot be read: never equal to what the monitor expects
+        terms.append("rmon_check %d %s %s" % (mk["parts"], show(pairs), show(final)))
+        index.append(t)
+    vals = coqrun.eval_terms("C17srv", "Base.Tactics Base.ListX Model.Routing", terms, shard_size=12)
+    bad = 0
+    for t, v in zip(index, vals):
+        if v != 0:
+            bad += 1
+            if bad <= 3:
+                mk = t["marks"]
+                upto = mk["steps"][v - 1][2] + 1 if 0 < v <= len(mk["steps"]) else len(t["ops"])
+                out.violation("srv-mon-%s" % t["id"], {"kind": "spec-monitor", "mode": "srv", "trace": {"id": t["id"], "cfg": t["cfg"], "ops": t["ops"][:upto]}, "monitor_result": v,
+                                                       "what": "Routing.rmon_check rejects the server's behaviour: step monitor_result-1 breaks the C17 specification (1000000 = final partition contents differ)",
+                                                       "step": mk["steps"][v - 1][0] if 0 < v <= len(mk["steps"]) else None})
+    return {"server_traces": len(index), "server_op_histogram": hist, "server_monitor_rejections": bad}
+
+
 def replay(payload):
-    t = payload["trace"]
+    t = {k: v for k, v in payload["trace"].items() if k != "marks"}
     impl = harness.run_traces(payload.get("mode", "route"), [t], shards=1)
     print(json.dumps(impl[t["id"]], indent=1))
     return 0
